@@ -1,6 +1,7 @@
 import HapVerif.Proofs.ReconnectSilent
 import HapVerif.Proofs.ReconnectObs
 import HapVerif.Proofs.ReconnectFuel
+import HapVerif.Proofs.ReconnectSecure
 import HapVerif.Gen.Reconnect
 
 /-! # C10 - reconnection keeps trying with bounded back-off and a single connector
@@ -345,5 +346,87 @@ example :
     let s := run (init [1, 2]) [.pushVer .wrongId, .pushTcp (.ok 0), .pushTcp .refused, .ensure 1 none]
     s.conn = .sleeping 6144 ∧ s.failed = [] ∧
     attempts (step s (.adv 6144)) = [.attempt 0 [1, 2], .attempt 0 [2], .attempt 6144 [1, 2]] := by decide +kernel
+
+/-! ## success ends the retries -/
+
+/-- **retries end by success**: whenever the pairing is connected (a current connection, secure, not closed) the
+    connector is not running - no back-off sleep, no connect and no pair-verify is pending -/
+theorem C10_connected_connector_idle (hosts : List Host) (evs : List Ev)
+    (h : (run (init hosts) evs).isConnected = true) : (run (init hosts) evs).conn.live = false := by
+  have hi := run_inv hosts evs
+  have hv := V_run evs (init hosts) (V_init hosts)
+  generalize run (init hosts) evs = s at *
+  simp only [St.isConnected, Bool.and_eq_true, Bool.not_eq_true'] at h
+  obtain ⟨⟨hcur, _⟩, hsec⟩ := h
+  cases hc : s.conn with
+  | verifyWait t c =>
+    unfold V at hv; rw [hc] at hv
+    rw [hv] at hsec; cases hsec
+  | tcpWait t r =>
+    unfold V at hv; rw [hc] at hv
+    rw [hv] at hsec; cases hsec
+  | sleeping t =>
+    have := hi.curNone (by rw [hc]; intro hh; cases hh) (by intro t' c' hh; rw [hc] at hh; cases hh)
+    rw [this] at hcur; cases hcur
+  | idle => rfl
+  | doneOk => rfl
+  | doneAuth => rfl
+  | finished => rfl
+  | cancelled => rfl
+  | stuck => rfl
+
+/-- hence, while it stays connected, nothing but the loss of the connection (or a close) makes the library connect
+    again: time passing, callers asking for the connection, cancelled callers and zeroconf updates cause no attempt -/
+theorem C10_no_attempt_while_connected (hosts : List Host) (evs : List Ev) (e : Ev)
+    (h : (run (init hosts) evs).isConnected = true)
+    (he : (∀ c, e ≠ .drop c) ∧ e ≠ .close ∧ e ≠ .shutdown) :
+    attempts (step (run (init hosts) evs) e) = attempts (run (init hosts) evs) := by
+  have hl := C10_connected_connector_idle hosts evs h
+  generalize run (init hosts) evs = s at *
+  cases e with
+  | adv dt =>
+    simp only [step]
+    rw [advanceTo_idle _ _ _ hl]
+    exact attempts_fire _ _
+  | ensure id own =>
+    simp only [step, h, Bool.or_true, if_true]
+    simp [attempts, emit, List.filter_append, isAttempt]
+  | cancelW id =>
+    simp only [step, attempts, List.filter_append]
+    have : ∀ l : List Waiter, (l.map (fun w => Obs.waiter w.id .cancelled s.now)).filter isAttempt = [] := by
+      intro l; induction l <;> simp_all [isAttempt]
+    rw [this]; simp
+  | soon =>
+    simp only [step]
+    split
+    · rfl
+    · have hns : ∀ t, s.conn ≠ .sleeping t := by
+        intro t hh; rw [hh] at hl; simp [Conn.live] at hl
+      unfold reconnectSoon
+      split
+      · rename_i t hh; exact absurd hh (hns t)
+      · simp [startReconnecting, h]
+  | descr hs =>
+    simp only [step]
+    split
+    · rfl
+    · have hns : ∀ t, s.conn ≠ .sleeping t := by
+        intro t hh; rw [hh] at hl; simp [Conn.live] at hl
+      have hc' : ({ s with desc := some hs } : St).isConnected = true := h
+      unfold reconnectSoon
+      split
+      · rename_i t hh; exact absurd hh (hns t)
+      · simp [startReconnecting, hc', attempts]
+  | close => exact absurd rfl he.2.1
+  | shutdown => exact absurd rfl he.2.2
+  | pushTcp o => rfl
+  | pushVer v => rfl
+  | drop c => exact absurd rfl (he.1 c)
+
+
+/-- non-vacuity: connected after a refused connect and a failed pair-verify; twenty minutes later nothing more was tried -/
+example :
+    let s := run (init [1, 2]) [.pushTcp .refused, .pushVer .fail, .ensure 1 none, .adv (sec 30)]
+    s.isConnected = true ∧ s.conn = .doneOk ∧ attempts (step s (.adv (sec 1200))) = attempts s := by decide
 
 end HapVerif.Reconnect
